@@ -287,7 +287,7 @@ def check(prop, tier, seed):
         xkw = dict(keys=2, blocks=1, flags=2, ttls=ttls, maxlen=2, maxnow=1)
     e2, _ = pl.export(two, 24000 if quick else 400000, **xkw)
     e1, _ = pl.export(["l1only"], 6000 if quick else 100000, evict=False, **xkw)
-    shapes2 = SHAPES2[:3] if quick else SHAPES2
+    shapes2 = (SHAPES2[:3] + ([SHAPES2[5]] if prop == "C09" else [])) if quick else SHAPES2
     shapes1 = SHAPES1[:2] if quick else SHAPES1
     for sh in shapes2:
         sizes = "chunk" if sh["l1"] == "chunked" else "small"
